@@ -39,6 +39,7 @@ function val(v) {
   case "nil": return null;
   case "h1": return H[0];
   case "h2": return H[1];
+  case "pp": return __brPP();
   }
   throw new Error("unknown value " + v);
 }
